@@ -14,10 +14,16 @@ from . import apprig, ncp_netinfo, vloop
 from .c04 import pmap
 from .core import Ctx
 
-INVS = ("CompletedOk", "SecurityStateExactOk", "StoreHoldsOk", "RoundTripOk", "OrderOkOk")
+INVS = ("CompletedOk", "SecurityStateExactOk", "StoreHoldsOk", "RoundTripOk", "OrderOkOk", "NodeAddressOk", "TcAddressOk")
 WELL_KNOWN = b"ZigBeeAlliance09"
 # EmberInitialSecurityBitmask, pinned from the EmberZNet headers
 F_PRECONFIGURED_KEY, F_NETWORK_KEY, F_TC_EUI64, F_HASHED = 0x0100, 0x0200, 0x0040, 0x0084
+
+
+# (rewritable token, node address, trust-centre address, restored twice, burn permission)
+SYSTEMATIC = [(True, "different", "self", True, False), (True, "different", "self", False, False), (False, "different", "self", False, False),
+              (False, "different", "self", True, True), (True, "same", "self", True, False), (True, "unknown", "other", True, False),
+              (False, "different", "other", False, True), (True, "different", "unknown", True, True)]
 
 
 def gen_case(ver, rng: random.Random):
@@ -43,7 +49,9 @@ def gen_case(ver, rng: random.Random):
         "tclk": list(WELL_KNOWN) if ver >= 5 else rng.choice((list(WELL_KNOWN), rb(16))),
         "hashed": rng.choice((None, rb(16))),
         "tc": rng.choice(("unknown", "self", "other")),
-        "ieee": rng.choice(("same", "different")),
+        "ieee": rng.choice(("same", "different", "different", "unknown")),
+        "burn": rng.random() < 0.3,            # permission to burn the address into the write-once manufacturing token
+        "twice": rng.random() < 0.35,          # the same backup is restored a second time
         "keys": [(rb(16), p) for p in partners],
         "children": children,
     }
@@ -59,29 +67,49 @@ def run_case(case):
         store = ncp_netinfo.NetStore(ncp, rewritable_eui=case["rewritable"])
         ncp.reset_hooks = [store.on_reset]
         cur = store.factory_eui
-        node_ieee = zt.EUI64(cur) if case["ieee"] == "same" else zt.EUI64(bytes([0xAA] * 7 + [ver]))
+        if case["ieee"] == "same":
+            node_ieee = zt.EUI64(cur)
+        elif case["ieee"] == "unknown":
+            node_ieee = zt.EUI64.UNKNOWN
+        else:
+            node_ieee = zt.EUI64(bytes([0xAA] * 7 + [ver]))
         if case["tc"] == "unknown":
             tc = zt.EUI64.UNKNOWN
         elif case["tc"] == "self":
             tc = node_ieee
         else:
             tc = zt.EUI64(bytes([0xBB] * 8))
-        stack_specific = {"ezsp": {"hashed_tclk": bytes(case["hashed"]).hex()}} if case["hashed"] is not None else {}
-        ni = zigpy.state.NetworkInfo(
-            extended_pan_id=zt.ExtendedPanId(bytes(case["epan"])), pan_id=zt.PanId(case["pan"]), nwk_update_id=case["updateId"],
-            nwk_manager_id=zt.NWK(0), channel=case["channel"], channel_mask=zt.Channels(case["mask"]), security_level=5,
-            network_key=zigpy.state.Key(key=zt.KeyData(bytes(case["netKey"])), seq=case["netSeq"], tx_counter=case["netFc"]),
-            tc_link_key=zigpy.state.Key(key=zt.KeyData(bytes(case["tclk"])), partner_ieee=tc, tx_counter=case["apsFc"]),
-            key_table=[zigpy.state.Key(key=zt.KeyData(bytes(k)), partner_ieee=zt.EUI64(bytes(p))) for k, p in case["keys"]],
-            children=[zt.EUI64(bytes(e)) for e, _n, _h in case["children"]],
-            nwk_addresses={zt.EUI64(bytes(e)): zt.NWK(n) for e, n, has in case["children"] if has},
-            stack_specific=stack_specific)
-        node = zigpy.state.NodeInfo(nwk=zt.NWK(0), ieee=node_ieee, logical_type=0)
+        tc_self = int(case["tc"] == "self" and case["ieee"] != "unknown")
+
+        def settings():
+            stack_specific = {"ezsp": {"hashed_tclk": bytes(case["hashed"]).hex()}} if case["hashed"] is not None else {}
+            if case.get("burn"):
+                stack_specific.setdefault("ezsp", {})["i_understand_i_can_update_eui64_only_once_and_i_still_want_to_do_it"] = True
+            ni = zigpy.state.NetworkInfo(
+                extended_pan_id=zt.ExtendedPanId(bytes(case["epan"])), pan_id=zt.PanId(case["pan"]), nwk_update_id=case["updateId"],
+                nwk_manager_id=zt.NWK(0), channel=case["channel"], channel_mask=zt.Channels(case["mask"]), security_level=5,
+                network_key=zigpy.state.Key(key=zt.KeyData(bytes(case["netKey"])), seq=case["netSeq"], tx_counter=case["netFc"]),
+                tc_link_key=zigpy.state.Key(key=zt.KeyData(bytes(case["tclk"])), partner_ieee=zt.EUI64(tc), tx_counter=case["apsFc"]),
+                key_table=[zigpy.state.Key(key=zt.KeyData(bytes(k)), partner_ieee=zt.EUI64(bytes(p))) for k, p in case["keys"]],
+                children=[zt.EUI64(bytes(e)) for e, _n, _h in case["children"]],
+                nwk_addresses={zt.EUI64(bytes(e)): zt.NWK(n) for e, n, has in case["children"] if has},
+                stack_specific=stack_specific)
+            node = zigpy.state.NodeInfo(nwk=zt.NWK(0), ieee=zt.EUI64(node_ieee), logical_type=0)
+            return ni, node
         completed, exc = 1, ""
-        t1 = asyncio.ensure_future(app.write_network_info(network_info=ni, node_info=node))
-        ok = await apprig.run_until_done(loop, [t1], limit_s=600)
-        if not ok or t1.exception() is not None:
-            completed, exc = 0, ("hang" if not t1.done() else "write:" + type(t1.exception()).__name__)
+        can_burn0 = store.mfg_custom_eui == ncp_netinfo.FF8
+        hashed_first = None
+        for rnd in range(2 if case.get("twice") else 1):
+            ni, node = settings()                 # write_network_info adjusts the objects it is given: fresh ones per restore
+            if rnd == 1 and hashed_first is not None and case["hashed"] is None:
+                ni.stack_specific.setdefault("ezsp", {})["hashed_tclk"] = hashed_first
+            store.cmd_order.clear()
+            t1 = asyncio.ensure_future(app.write_network_info(network_info=ni, node_info=node))
+            ok = await apprig.run_until_done(loop, [t1], limit_s=600)
+            if not ok or t1.exception() is not None:
+                completed, exc = 0, ("hang" if not t1.done() else "write:" + type(t1.exception()).__name__)
+                break
+            hashed_first = ni.stack_specific.get("ezsp", {}).get("hashed_tclk")
         st_params = store.params
         st = {"pan": int(st_params.panId) if st_params is not None else -1,
               "epan": list(st_params.extendedPanId.serialize()) if st_params is not None else [],
@@ -91,7 +119,7 @@ def run_case(case):
               "netKey": list(store.netkey), "netSeq": store.netseq, "netFc": str(store.netfc),
               "linkKeys": [{"key": list(k), "partner": list(p)} for (k, p) in [e for e in store.keys if e is not None]],
               "children": [{"eui": list(e), "nwk": n} for (e, n, _t) in store.children.values()],
-              "running": 1 if store.running else 0}
+              "running": 1 if store.running else 0, "eui": list(store.eui64)}
         s = store.sec_state_args
         sec = {"netKey": [], "netSeq": -1, "preKey": [], "tcEui": [], "flagNetKey": 0, "flagPreKey": 0, "flagTcEui": 0, "flagHashed": 0}
         if s is not None:
@@ -102,7 +130,7 @@ def run_case(case):
                    "flagTcEui": int(bm & F_TC_EUI64 == F_TC_EUI64), "flagHashed": int(bm & F_HASHED == F_HASHED)}
         order = list(store.cmd_order)
         r = {"pan": -1, "epan": [], "channel": -1, "mask": "", "updateId": -1, "netKey": [], "netSeq": -1, "netFc": "", "tclk": [],
-             "hashedTclk": [], "linkKeys": [], "children": []}
+             "hashedTclk": [], "linkKeys": [], "children": [], "ieee": [], "tcPartner": []}
         if completed:
             t2 = asyncio.ensure_future(app.load_network_info(load_devices=True))
             ok = await apprig.run_until_done(loop, [t2], limit_s=600)
@@ -116,7 +144,8 @@ def run_case(case):
                      "netFc": str(int(x.network_key.tx_counter)), "tclk": list(x.tc_link_key.key.serialize()),
                      "hashedTclk": list(bytes.fromhex(hs)) if hs else [],
                      "linkKeys": [{"key": list(k.key.serialize()), "partner": list(k.partner_ieee.serialize())} for k in x.key_table],
-                     "children": [{"eui": list(e.serialize()), "nwk": int(x.nwk_addresses.get(e, 0xFFFF))} for e in x.children]}
+                     "children": [{"eui": list(e.serialize()), "nwk": int(x.nwk_addresses.get(e, 0xFFFF))} for e in x.children],
+                     "ieee": list(app.state.node_info.ieee.serialize()), "tcPartner": list(x.tc_link_key.partner_ieee.serialize())}
         # the settings as effectively supplied (write_network_info adjusts addresses it cannot write and fills in a hashed key)
         hs_w = ni.stack_specific.get("ezsp", {}).get("hashed_tclk")
         w = {"pan": case["pan"], "epan": case["epan"], "channel": case["channel"], "mask": str(case["mask"]), "updateId": case["updateId"],
@@ -124,8 +153,12 @@ def run_case(case):
              "hashedTclk": list(bytes.fromhex(hs_w)) if hs_w else [],
              "tcKnown": int(ni.tc_link_key.partner_ieee != zt.EUI64.UNKNOWN), "tcEui": list(ni.tc_link_key.partner_ieee.serialize()),
              "linkKeys": [{"key": k, "partner": p} for k, p in case["keys"]],
-             "children": [{"eui": e, "nwk": n} for e, n, has in case["children"] if has]}
-        return [{"a": "run", "ver": ver, "rewritable": int(case["rewritable"]), "w": w, "sec": sec, "st": st, "r": r, "order": order,
+             "children": [{"eui": e, "nwk": n} for e, n, has in case["children"] if has],
+             # the node address as SUPPLIED (before write_network_info adjusts anything) and what the NCP is able to take
+             "ieeeKnown": int(case["ieee"] != "unknown"), "ieee": list(node_ieee.serialize()), "tcSelf": tc_self,
+             "canSet": int((bool(case["rewritable"]) and "getTokenData" in ncp.cmds and "setTokenData" in ncp.cmds)     # token commands exist from version 9 on
+                           or (bool(case.get("burn")) and can_burn0))}
+        return [{"a": "run", "ver": ver, "rewritable": int(case["rewritable"]), "twice": int(bool(case.get("twice"))), "w": w, "sec": sec, "st": st, "r": r, "order": order,
                  "completed": completed, "exc": exc}]
     return vloop.run(main)
 
@@ -143,19 +176,23 @@ def sig(meta, v, tr):
 
 
 def run(ctx: Ctx):
-    ctx.model_check("NetInfoMC", "MC_NetInfo", invariants=("Satisfiable", "LostKeysCaught", "LateCountersCaught"), coverage=False, workers=4)
+    ctx.model_check("NetInfoMC", "MC_NetInfo", invariants=("Satisfiable", "LostKeysCaught", "LateCountersCaught", "StaleAddressCaught"), coverage=False, workers=4)
     rng = ctx.rng
     n = 12 if ctx.quick else 300
     cases = []
     for ver in range(4, 15):
-        for _ in range(n):
-            cases.append(gen_case(ver, rng))
+        for k in range(n):
+            c = gen_case(ver, rng)
+            if k < len(SYSTEMATIC):          # the address / capability dimensions are covered systematically first
+                c.update(dict(zip(("rewritable", "ieee", "tc", "twice", "burn"), SYSTEMATIC[k])))
+            cases.append(c)
     traces = pmap(run_case, cases, chunksize=4)
     ctx.evaluations = len(traces)
     ctx.distinct_nontrivial = len({str(c) for c in cases})
     ctx.rule = (f"per protocol version 4..14: {n} generated settings (0..4 link keys, 0..4 children some without network address, trust-centre address unknown / "
-                "own / other, hashed link key supplied or absent, node address equal to or different from the NCP's, counters incl. values above 2^31, NCP with or "
-                "without a rewritable EUI64 token); each run = write_network_info + load_network_info(load_devices=True); distinct = distinct case")
+                "own / other, hashed link key supplied or absent, node address equal to / different from the NCP's / unknown, counters incl. values above 2^31, NCP with or "
+                "without a rewritable EUI64 token, permission to burn the write-once address token or not, the backup restored once or twice in a row); each run = "
+                "write_network_info (x1 or x2) + load_network_info(load_devices=True); distinct = distinct case")
     ctx.add_sample(traces[0][0])
     ctx.validate_traces("Trace_NetInfo", traces, invariants=INVS, metas=cases, label="network info", sig=sig)
     ctx.exhaustive = False
